@@ -2,5 +2,4 @@ CONSTANTS StrictKind = FALSE
           Ulps = 2
 SPECIFICATION TraceSpec
 POSTCONDITION TraceAccepted
-VIEW Pos
 CHECK_DEADLOCK FALSE
